@@ -510,33 +510,28 @@ func init() {
 		{"min", funcKernel(f, "min", "min64", "(a_ b_ : Int)", "Int", Spec{Kind: "i64"})},
 		{"genRanges.action", loopAction(f, "Fetcher.genRanges", "ranges", "updateSTH", "genRangesAction", "(start_ end_ : Int) (continuous : Bool)",
 			Spec{Kind: "i64", Repl: map[string]string{"f.opts.Continuous": "continuous"}})},
-		{"genRanges.batchEnd", assignKernel(f, "Fetcher.genRanges", "batchEnd", "genRangesBatchEnd", "(start_ end_ batch_ : Int)", "Int", i64)},
-		{"genRanges.next", assignKernel(f, "Fetcher.genRanges", "next", "genRangesNext", "(start_ batchEnd_ : Int)", "Int × Int", i64)},
-		{"genRanges.advance", assignKernel(f, "Fetcher.genRanges", "start", "genRangesAdvance", "(batchEnd_ : Int)", "Int", i64)},
+		{"genRanges.batchEnd", assignAnywhere(f, "Fetcher.genRanges", "batchEnd", false, "genRangesBatchEnd", "(start_ end_ batch_ : Int)", "Int", i64)},
+		{"genRanges.next", rangeLiteral(f, "Fetcher.genRanges", "fetchRange", "genRangesNext", "(start_ batchEnd_ : Int)", "Int × Int", i64)},
+		{"genRanges.advance", assignAnywhere(f, "Fetcher.genRanges", "start", false, "genRangesAdvance", "(batchEnd_ : Int)", "Int", i64)},
 		{"genRanges.batch", assignKernel(f, "Fetcher.genRanges", "batch", "genRangesBatch", "(batchSize : Int)", "Int",
 			Spec{Kind: "i64", Repl: map[string]string{"f.opts.BatchSize": "batchSize"}})},
-		{"runWorker.loop", forCondKernel(f, "Fetcher.runWorker", []string{"r.start <= r.end"}, "workerMore", "(rstart rend : Int)",
+		{"runWorker.loop", rangeLoopCond(f, "Fetcher.runWorker", "workerMore", "(rstart rend : Int)",
 			Spec{Kind: "i64", Repl: map[string]string{"r.start": "rstart", "r.end": "rend"}})},
 		{"runWorker.request", callArgsAnywhere(f, "Fetcher.runWorker", ".client.GetRawEntries", 1, 2, "r", -1, "workerRequest", "(rstart rend : Int)", "Int × Int",
 			Spec{Kind: "i64", Repl: map[string]string{"r.start": "rstart", "r.end": "rend"}})},
-		{"runWorker.advance", opAssignKernel(f, "Fetcher.runWorker", "r.start", "workerAdvance", "(rstart n : Int)", "Int",
-			Spec{Kind: "i64", Repl: map[string]string{"r.start": "rstart", "len(resp.Entries)": "n"}})},
-		{"runWorker.batchStart", keyedFieldKernel(f, "Fetcher.runWorker", "EntryBatch", "Start", "workerBatchStart", "(rstart : Int)", "Int",
+		{"runWorker.advance", startAdvance(f, "Fetcher.runWorker", "workerAdvance", "(rstart n : Int)", "Int", Spec{Kind: "i64"})},
+		{"runWorker.batchStart", fieldAnywhere(f, "Fetcher.runWorker", "EntryBatch", "Start", "r", -1, "workerBatchStart", "(rstart : Int)", "Int",
 			Spec{Kind: "i64", Repl: map[string]string{"r.start": "rstart"}})},
 		{"runWorker.decision", workerDecision(f, "Fetcher.runWorker", "fn", "workerDecision")},
 		{"Prepare.body", decisionChain(f, "Fetcher.Prepare", "prepareChain", "(cached sthFails : Bool)", "Nat", chainSpec{
 			Conds: map[string]string{"f.sth != nil": "cached"}, ErrCalls: map[string]string{".client.GetSTH": "sthFails"},
 			Rets: map[string]string{"f.sth, nil": "1", "nil, err": "2", "sth, nil": "0"}})},
-		{"Prepare.reset", ifInitCondKernel(f, "Fetcher.Prepare", []string{"f.opts.EndIndex"}, "prepareResets", "(treeSize endIndex : Int)",
+		{"Prepare.reset", guardOfAssign(f, "Fetcher.Prepare", "f.opts.EndIndex", "prepareResets", "(treeSize endIndex : Int)",
 			Spec{Kind: "i64", Repl: map[string]string{"sth.TreeSize": "treeSize", "f.opts.EndIndex": "endIndex"}})},
-		{"updateSTH.lastSize", assignKernel(f, "Fetcher.updateSTH", "lastSize", "updateSTHLastSize", "(endIndex : Int)", "Int",
-			Spec{Kind: "u64", Repl: map[string]string{"f.opts.EndIndex": "endIndex"}})},
-		{"updateSTH.targetSize", assignKernel(f, "Fetcher.updateSTH", "targetSize", "updateSTHTargetSize", "(lastSize_ batchSize : Int)", "Int",
-			Spec{Kind: "u64", Repl: map[string]string{"f.opts.BatchSize": "batchSize"}})},
-		{"updateSTH.reject", guardKernel(f, "Fetcher.updateSTH", []string{"sth.TreeSize <= lastSize"}, "updateSTHRejects", "(treeSize lastSize_ targetSize_ : Int) (quick_ : Bool)",
-			Spec{Kind: "u64", Repl: map[string]string{"sth.TreeSize": "treeSize"}})},
-		{"updateSTH.newEnd", assignKernel(f, "Fetcher.updateSTH", "f.opts.EndIndex", "updateSTHNewEnd", "(treeSize : Int)", "Int",
-			Spec{Kind: "i64", Repl: map[string]string{"sth.TreeSize": "treeSize"}, Vars: map[string]string{"f.opts.EndIndex": "endIndex"}})},
+		{"updateSTH.reject", rejectGuards(f, "Fetcher.updateSTH", ".GetSTH", "updateSTHRejects", "(treeSize endIndex batchSize : Int) (quick_ : Bool)",
+			Spec{Kind: "u64", Repl: map[string]string{"sth.TreeSize": "treeSize", "f.opts.EndIndex": "endIndex", "f.opts.BatchSize": "batchSize"}})},
+		{"updateSTH.newEnd", assignAnywhere(f, "Fetcher.updateSTH", "f.opts.EndIndex", true, "updateSTHNewEnd", "(treeSize : Int)", "Int",
+			Spec{Kind: "i64", Repl: map[string]string{"sth.TreeSize": "treeSize"}})},
 		{"ScanLog.flatten", fieldAnywhere("scanner/scanner.go", "Scanner.ScanLog", "entryInfo", "index", "", 0, "flattenIndex", "(bStart i_ : Int)", "Int",
 			Spec{Kind: "i64", Repl: map[string]string{"b.Start": "bStart"}})},
 	}})
@@ -557,8 +552,8 @@ func init() {
 		{"idHashLeafIndex.encode", callArgSources(m, "idHashLeafIndex", "binary.LittleEndian.PutUint64", "idHashLeafIndexEncode")},
 		{"verifyConsistency.body", decisionChain(c, "Controller.verifyConsistency", "verifyConsistencyChain", "(treeSize_ : Int) (noCheck proofErr proofBad : Bool)", "Nat", chainSpec{
 			Conds: map[string]string{"treeSize == 0": "(decide (treeSize_ = 0))", "c.opts.NoConsistencyCheck": "noCheck"},
-			ErrCalls: map[string]string{".GetSTHConsistency": "proofErr"},
-			Rets:     map[string]string{"nil": "0", "err": "1", "proof.VerifyConsistency(": "(if proofBad then 1 else 0)"}})},
+			ErrCalls: map[string]string{".GetSTHConsistency": "proofErr", "proof.VerifyConsistency": "proofBad"},
+			Rets:     map[string]string{"nil": "0"}})},
 		{"fetchTail.head", decisionChain(c, "Controller.fetchTail", "fetchTailHead", "(rootFails prepareFails gateErr : Bool) (sthSize begin_ : Int)", "Nat", chainSpec{
 			To:       "var wg sync.WaitGroup",
 			Conds:    map[string]string{"sth.TreeSize <= begin": "(decide (sthSize ≤ begin_))", "err := c.verifyConsistency(": "gateErr"},
@@ -568,17 +563,14 @@ func init() {
 			From:     "defer cancel()",
 			Conds:    map[string]string{"err := cctx.Err() ; err != nil": "ctxDone"},
 			ErrCalls: map[string]string{"fetcher.Run": "runFails"},
-			Rets:     map[string]string{"0, err": "1", "0, fmt.Errorf(": "1", "sth.TreeSize, nil": "0"}})},
-		{"fetchTail.tailOrder", stmtOrder(c, "Controller.fetchTail", "defer cancel()", []string{"err = fetcher.Run(", "close(batches)", "wg.Wait()", "if err != nil", "if err := cctx.Err()", "return sth.TreeSize, nil"}, "fetchTailTailOrder")},
-		{"verifyConsistency.order", topLevelIfConds(c, "Controller.verifyConsistency", "gateOrder")},
-		{"verifyConsistency.args", callArgSources(c, "Controller.verifyConsistency", "proof.VerifyConsistency", "verifyConsistencyArgs")},
+			ErrLast:  true})},
+		{"fetchTail.tailOrder", stmtOrder(c, "Controller.fetchTail", "defer cancel()", []string{"fetcher.Run(", "close(batches)", "wg.Wait()", "if err != nil", "cctx.Err()"}, "fetchTailTailOrder")},
+		{"verifyConsistency.args", callArgSourcesFollowed(c, "Controller.verifyConsistency", "proof.VerifyConsistency", "verifyConsistencyArgs")},
 		{"fetchTail.range", stmtsAfterKernel(c, "Controller.fetchTail", ".opts.FetcherOptions", []string{"klog.Infof(\"%s: fetching range"}, "fetchTailRange",
 			"(startIndex endIndex : Int) (continuous : Bool) (treeSize_ begin_ : Int)", "Int × Int × Bool", "(startIndex, endIndex, continuous)",
 			Spec{Kind: "i64", Vars: map[string]string{"fo.StartIndex": "startIndex", "fo.EndIndex": "endIndex", "fo.Continuous": "continuous"}})},
 		{"fetchTail.uptodate", condKernel(c, "Controller.fetchTail", []string{"sth.TreeSize <= begin"}, "fetchTailUpToDate", "(sthSize begin_ : Int)",
 			Spec{Kind: "u64", Repl: map[string]string{"sth.TreeSize": "sthSize"}})},
-		{"verifyConsistency.empty", guardKernel(c, "Controller.verifyConsistency", []string{"treeSize == 0"}, "gateSkipsEmpty", "(treeSize_ : Int)",
-			Spec{Kind: "u64"})},
 		{"runSubmitter.end", assignKernel(c, "Controller.runSubmitter", "end", "submitEnd", "(bStart n : Int)", "Int",
 			Spec{Kind: "i64", Repl: map[string]string{"b.Start": "bStart", "len(b.Entries)": "n"}})},
 	}})
